@@ -778,6 +778,9 @@ pub fn analyze(sc: &Scenario, out: &RunOut) -> Analysis {
                     continue;
                 }
                 // ---- mailbox accounting ----
+                // (Handlers still running on other workers after a failure was registered make
+                // the picture at the return of a failing call non-quiescent: only judged when the call did not fail for another reason.)
+                let controlled_or_quiescent = faults_in_cmd.is_empty() && dropped_delivery_in_cmd.is_empty() && oos_in_cmd.is_none() && !(spec.timeout_ms != 0);
                 let mut dl: Vec<(String, usize)> = vec![];
                 let mut orphan_total = 0usize;
                 for r in 0..n {
@@ -786,7 +789,17 @@ pub fn analyze(sc: &Scenario, out: &RunOut) -> Analysis {
                         continue;
                     }
                     match nstate(spec, r) {
-                        NState::InSim => dl.push((spec.qname(r), u)),
+                        NState::InSim => {
+                            // A model that holds unprocessed messages is not idle: in a genuine
+                            // stall it is blocked inside a handler or inside its init. Messages
+                            // left with a model that is not running anything were abandoned by
+                            // the executor (the model's task was lost), which is not a deadlock
+                            // of the bench.
+                            if open[r].is_none() && init_state[r] != 1 && controlled_or_quiescent {
+                                viol!("report_exact", "command #{} returned with {} unprocessed message(s) in the mailbox of model {} although that model is idle (not inside a handler or init): its task was abandoned", i, u, spec.qname(r));
+                            }
+                            dl.push((spec.qname(r), u))
+                        }
                         NState::Orphan => orphan_total += u,
                         NState::Dropped => {}
                     }
